@@ -240,8 +240,10 @@ def create_redist_dict(
     if allocated < group_resource:
       extra = group_resource - allocated
       for (key, _) in sorted_scores:
-        realloc[key] = min(realloc[key] + 1, dim)
-        extra = extra - 1 if realloc[key] + 1 < dim else extra
+        incremented = min(realloc[key] + 1, dim)
+        # Every rank actually handed out uses up one unit of the leftover.
+        extra = extra - 1 if incremented > realloc[key] else extra
+        realloc[key] = incremented
         if extra <= 0:
           break
 
